@@ -255,6 +255,62 @@ Definition res_eqb {A} (eqb : A -> A -> bool) (a b : res A) : bool :=
   | _, _ => false
   end.
 
+(* ---------------------------------------------------------------- the lite-block route
+   saito-rust/src/network_controller.rs, the closure of `lite_route` (GET /lite-block/<hash>/<key>).
+   Inputs as the closure sees them; string decoding is an oracle input: the results of the real
+   SaitoPublicKey::from_hex and from_base58 on the key segment are both given, the model takes
+   the decision which of them is used. *)
+
+Inductive key_arg : Type :=
+| KMissing                                            (* no key segment: key = None *)
+| KStr (len : N) (hex : option N) (b58 : option N).   (* key segment of [len] characters *)
+
+(* key1.is_empty() => own key; len == 66 => from_hex else from_base58; undecodable => reject *)
+Definition route_key (own : N) (k : key_arg) : option N :=
+  match k with
+  | KMissing => None
+  | KStr len hex b58 => if len =? 0 then Some own else if len =? 66 then hex else b58
+  end.
+
+(* peers.find_peer_by_address(&key): None => [key]; Some(peer) => peer.key_list ++ [key] *)
+Definition route_keylist (peers : list (N * list N)) (key : N) : list N :=
+  match aget key peers with
+  | Some kl => kl ++ [key]
+  | None => [key]
+  end.
+
+Inductive route_out : Type :=
+| RReject                       (* warp::reject::reject() *)
+| RNotFound                     (* warp::reject::not_found() *)
+| RServed (body : res block).   (* 200 with serialize_for_net(lite block); [body] = the block as decoded from those bytes *)
+
+(* [file]: None = no blocks directory / no file name containing the extension and the hash string /
+   unreadable; Some disk = the block stored in the (first) matching file.  A file that does not decode
+   or on which Block::generate fails => not found. *)
+Definition route (own : N) (k : key_arg) (peers : list (N * list N)) (file : option block) : route_out :=
+  match route_key own k with
+  | None => RReject
+  | Some key =>
+      let ks := route_keylist peers key in
+      match file with
+      | None => RNotFound
+      | Some disk =>
+          match receive disk with
+          | Ok b => RServed (do l <- lite b ks; Ok (wire l))
+          | Err => RNotFound
+          | Panic s => RServed (Panic s)
+          end
+      end
+  end.
+
+Definition route_out_eqb (a b : route_out) : bool :=
+  match a, b with
+  | RReject, RReject => true
+  | RNotFound, RNotFound => true
+  | RServed x, RServed y => res_eqb block_eqb x y
+  | _, _ => false
+  end.
+
 (* ---------------------------------------------------------------- the known classes (decidable) *)
 
 (* some sibling pair (2k, 2k+1) of the block's transactions is omitted as a whole: exactly the
